@@ -13,6 +13,7 @@ import json
 import os
 
 from harness.core import Corr, Disagreement, Failure, coq_eval, VERIF
+from harness.translate import c30_guard, c30_guard_plug
 
 ID = 'C30'
 SRC = 'ci/ci/github.py'
@@ -225,6 +226,12 @@ def _model_traces(ctx, hs):
     return coq_eval(ctx, HEADER, exprs, shard=40, label='trace')
 
 
+def generate(ctx):
+    """T for the re-entrancy guard: control skeleton of _update / notify_* / update -> coq/generated/C30/GuardGen.v (fails closed)."""
+    info = c30_guard.generate(ctx)
+    ctx.notes.append('guard skeleton translated: %d top-level statements in _update' % len(info['update_body']))
+
+
 def correspond(ctx):
     hs = histories(ctx, ctx.scale(100, 1500), 30)
     ctx._c30_hs = hs
@@ -258,6 +265,7 @@ def correspond(ctx):
                                                'merges_per_history': _hist([len(r['merges']) for r in impl])},
                 names=['state-after-event'])
     corr.merge(_correspond_loop(ctx))
+    corr.merge(c30_guard_plug.correspond_guard(ctx))
     return corr
 
 
@@ -420,9 +428,13 @@ def oracle(ctx, budget):
         fails.append(Failure(key, f'CI merged PR {m2["pr"]} at {m2["sha"]} with: {key}', {'history': h2},
                              'every merge: approved for this head, no DNM label, statuses non-empty / all success / for this head, '
                              'batch for this head against the current target and successful; one merge per target commit', m2))
-    return fails, {'evaluations': len(hs), 'distinct_nontrivial': n_merges,
-                   'rule': 'oracle: histories run on the real objects; non-trivial = merges performed and checked against the recorded provenance',
-                   'histograms': {'oracle_merges': n_merges}}
+    gfails, gstats = c30_guard_plug.oracle_guard(ctx, budget, check_merges)
+    fails += gfails
+    return fails, {'evaluations': len(hs) + gstats['evaluations'], 'distinct_nontrivial': n_merges + gstats['distinct_nontrivial'],
+                   'rule': 'oracle: histories run on the real objects; non-trivial = merges performed and checked against the recorded provenance; '
+                           'plus schedules of overlapping notifications on the real _update (never two tasks inside its sub-operations; merges checked '
+                           'the same way); non-trivial = schedules with at least two notification tasks',
+                   'histograms': {'oracle_merges': n_merges, 'oracle_merges_under_overlap': gstats['merges']}}
 
 
 def _shrink(ctx, h, key, m):
@@ -455,6 +467,8 @@ def _shrink(ctx, h, key, m):
 
 def replay(ctx, doc):
     case = doc.get('case') or doc
+    if 'schedule' in case:
+        return c30_guard_plug.replay_guard(ctx, case, check_merges)
     h = case['history']
     r = _impl(ctx, [h])[0]
     return {'history': h, 'merges': r['merges'], 'violations': [[k, m] for k, m in check_merges(r['merges'])],
